@@ -321,15 +321,48 @@ theorem splitRecords_file (rs : List FastaRec) (hne : rs ≠ []) (h : ∀ r ∈ 
     exact ⟨(record_parts_ok r (h r hr)).1, (record_parts_ok r (h r hr)).2.1⟩
   · simpa using hne
 
+theorem joinWith_head_of_headed (gs : List (List Char)) (hne : gs ≠ [])
+    (h : ∀ g ∈ gs, g.head? = some '>') : (joinWith ['\n'] gs).head? = some '>' := by
+  cases gs with
+  | nil => exact absurd rfl hne
+  | cons g rest =>
+    have hg := h g (by simp)
+    cases g with
+    | nil => simp at hg
+    | cons c b => rw [joinWith_cons_head]; simpa using hg
+
+/-- a reader input whose joined text begins with `>`: `parseFastaFiles` drops that `>` and splits
+(this is literally what the line did before the repair f95d0dc) -/
+theorem parseFastaFiles_headed (files : List (List Char))
+    (h : (joinWith ['\n'] (files.map univNL)).head? = some '>') :
+    parseFastaFiles files = splitRecords ((joinWith ['\n'] (files.map univNL)).drop 1) := by
+  unfold parseFastaFiles
+  exact splitRecords_nl_headed _ h
+
 /-- several files whose text (after newline translation) begins with `>` -/
 theorem parseFastaFiles_several (files : List (List Char)) (hne : files ≠ [])
     (h : ∀ f ∈ files, (univNL f).head? = some '>') :
     parseFastaFiles files = (files.map (fun f => parseFastaFiles [f])).flatten := by
-  unfold parseFastaFiles
-  rw [splitRecords_joined (files.map univNL) (by simpa using hne)]
-  · simp [List.map_map, Function.comp_def, joinWith]
-  · intro g hg
+  have hh : ∀ g ∈ files.map univNL, g.head? = some '>' := by
+    intro g hg
     obtain ⟨f, hf, rfl⟩ := List.mem_map.mp hg
     exact h f hf
+  rw [parseFastaFiles_headed files (joinWith_head_of_headed _ (by simpa using hne) hh)]
+  rw [splitRecords_joined (files.map univNL) (by simpa using hne) hh]
+  congr 1
+  rw [List.map_map]
+  apply List.map_congr_left
+  intro f hf
+  simp only [Function.comp]
+  rw [parseFastaFiles_headed [f] (by simpa [joinWith] using h f hf)]
+  simp [joinWith]
+
+/-- one laid-out file with at least one record (line ends `\n`) -/
+theorem parseFastaFiles_file (rs : List FastaRec) (hne : rs ≠ []) (h : ∀ r ∈ rs, RecOK r) :
+    parseFastaFiles [fastaFileText rs] = rs.map FastaRec.body := by
+  have hu := univNL_id _ (fastaFileText_no_cr rs h)
+  rw [parseFastaFiles_headed _ (by simpa [joinWith, hu] using fastaFileText_head rs hne)]
+  simp only [List.map_cons, List.map_nil, joinWith]
+  rw [hu, splitRecords_file rs hne h]
 
 end Mk.Decoys
